@@ -220,9 +220,11 @@ impl TupleSlice {
     ///
     /// If the bounds aren't valid with the current tuple slice, then `None` is returned.
     pub fn with_bounds(&self, bounds: Range<usize>) -> Option<Self> {
-        let new_bounds = (bounds.start + self.bounds.start)..(bounds.end + self.bounds.start);
+        let new_bounds = bounds.start.checked_add(self.bounds.start)?
+            ..bounds.end.checked_add(self.bounds.start)?;
 
-        if self.data.get(new_bounds.clone()).is_some() {
+        // The new bounds need to stay within the current slice
+        if new_bounds.end <= self.bounds.end && self.data.get(new_bounds.clone()).is_some() {
             Some(Self {
                 data: self.data.clone(),
                 bounds: new_bounds,
